@@ -56,7 +56,7 @@ def run(ctx):
                 "Lean compressor model re-encodes the accepted chunks from the observed metadata and must reproduce the bytes. "
                 "non-trivial = a history with at least one rejected call or an intermediate drain")
     hist = []
-    for _ in range(250 if ctx.quick else 3000):
+    for _ in range(1500 if ctx.quick else 12000):
         dt = rng.choice(S.ALL_DT)
         level = rng.choice([0, 3, 8, 12, 12, 13, 13])
         order = rng.choice([0, 0, 1, 3, 7, 8, 8])
@@ -145,7 +145,7 @@ def run(ctx):
             ctx.disagree("dec(cops)", line[:300], m[:200], "decodes")
     # drain placement invariance: same calls with/without intermediate drains
     inv = []
-    for _ in range(30 if ctx.quick else 300):
+    for _ in range(120 if ctx.quick else 1000):
         dt = rng.choice(S.ALL_DT)
         cs = [G.hexlist(G.gen_seq(rng, dt, rng.choice([1, 7, 100]))[0]) for _ in range(rng.range(1, 4))]
         base = ["H"] + ["C" + c for c in cs] + ["F"]
